@@ -1,5 +1,6 @@
 import DV
 import DVP.Lemmas.Stability
+import DVP.Lemmas.StabilityStep
 /-!
 # C11 — implicit methods are unconditionally stable on stiff decay
 
@@ -11,10 +12,12 @@ function `R = P/Q`, a Bézout identity `U·P + V·Q = c ≠ 0` and the bivariate
 and sign conditions, by computation) and **proves** what a valid certificate means: for every `w` in the
 closed left half-plane `Q(w) ≠ 0` (no pole) and `|P(w)| ≤ (1+δ)|Q(w)|`.  The slack `δ = 1e-12` is
 what the rounding of the coefficients to float64 costs: the statement is about the coefficients the
-code really uses.  (`Adj·(I − wA) = Q·I` makes `Adj/Q` the inverse of the stage matrix wherever
-`Q ≠ 0`, so the stage equations of `y' = λy` have the unique solution `k = λy₀ Adj 𝟙 / Q` and the step
-is `y₁ = (P/Q)(hλ) y₀`; this last piece of linear algebra is written out in DESIGN.md, not formalised.)
-The computed step is compared with `R(z)` on the implementation (`harness/p_c11.py`).
+code really uses.  `step_is_stability_function` then proves the step itself: whatever stage values
+solve the stage equations of `y' = λy` (`Adj·(I − wA) = Q·I` makes `Adj/Q` the inverse of the stage
+matrix), the new state satisfies `Q(w)·y₁ = P(w)·y₀`; `implicit_step_does_not_grow` combines the two:
+`|y₁| ≤ (1+δ)|y₀|` for every `hλ` in the closed left half-plane, of any magnitude.  That the real
+integrator's Newton solve returns such stage values is compared on the implementation
+(`harness/p_c11.py`: computed step vs `R(z)` exactly evaluated).
 -/
 namespace DVP.C11
 open DV DV.Gen DV.Stability DVP.Stability
@@ -61,6 +64,61 @@ theorem implicit_methods_A_stable (C : Cert) (hC : C ∈ allCerts) (u y : ℝ) (
   rw [hsd] at this
   norm_num at this ⊢
   exact this
+
+/-- **The step is the stability function**: for every shipped implicit table, every complex `w = hλ/2^K`
+and ANY stage values `κ_j = h k_j` solving the stage equations `Σ_j (I − wA)_ij κ_j = hλ·y₀` of
+`y' = λy`, the new state `y₁ = y₀ + Σ_i b_i κ_i` satisfies `Q(w)·y₁ = P(w)·y₀` -/
+theorem step_is_stability_function (C : Cert) (hC : C ∈ allCerts) (w y0 : ℂ) (κ : Nat → ℂ)
+    (hstage : ∀ i, i < C.A.length →
+      ∑ j ∈ Finset.range C.A.length, pev (iMinusWA C.A i j) w * κ j = w * (2 : ℂ) ^ C.K * y0) :
+    pev C.Q w * (y0 + ∑ i ∈ Finset.range C.A.length, ((C.b.getD i 0 : Int) : ℂ) / (2 : ℂ) ^ C.K * κ i) = pev C.P w * y0 := by
+  have hall := certificates_valid
+  rw [List.all_eq_true] at hall
+  have hv := hall C hC
+  unfold Cert.valid at hv
+  simp only [Bool.and_eq_true] at hv
+  have hb : C.b.length = C.A.length := by
+    have : allCerts.all (fun C => C.b.length == C.A.length) = true := by decide +kernel
+    rw [List.all_eq_true] at this
+    simpa using this C hC
+  exact step_eq_stability C.K C.A C.b C.Adj C.P C.Q hv.1.1.1 hv.1.1.2 hb w y0 κ hstage
+
+/-- **An implicit step on stiff decay never grows** (beyond the rounding slack of the coefficients):
+for every shipped implicit method, every `hλ` with `Re(hλ) ≤ 0` of any magnitude and any solution of
+the stage equations, `|y₁| ≤ (1 + 1e-12)·|y₀|` (squared form) -/
+theorem implicit_step_does_not_grow (C : Cert) (hC : C ∈ allCerts) (u y : ℝ) (hu : 0 ≤ u) (y0 : ℂ) (κ : Nat → ℂ)
+    (hstage : ∀ i, i < C.A.length →
+      ∑ j ∈ Finset.range C.A.length, pev (iMinusWA C.A i j) (⟨-u, y⟩ : ℂ) * κ j = (⟨-u, y⟩ : ℂ) * (2 : ℂ) ^ C.K * y0) :
+    ((10 ^ 12 : ℝ) ^ 2) * Complex.normSq (y0 + ∑ i ∈ Finset.range C.A.length, ((C.b.getD i 0 : Int) : ℂ) / (2 : ℂ) ^ C.K * κ i) ≤
+      (((10 ^ 12 : ℝ) + 1) ^ 2) * Complex.normSq y0 := by
+  obtain ⟨hQ, hineq⟩ := implicit_methods_A_stable C hC u y hu
+  have hstep := step_is_stability_function C hC (⟨-u, y⟩ : ℂ) y0 κ hstage
+  set y1 := y0 + ∑ i ∈ Finset.range C.A.length, ((C.b.getD i 0 : Int) : ℂ) / (2 : ℂ) ^ C.K * κ i
+  have hn := congrArg Complex.normSq hstep
+  rw [Complex.normSq_mul, Complex.normSq_mul] at hn
+  have hQpos : 0 < Complex.normSq (pev C.Q (⟨-u, y⟩ : ℂ)) := Complex.normSq_pos.mpr hQ
+  have h0 := Complex.normSq_nonneg y0
+  have h1 := Complex.normSq_nonneg y1
+  -- multiply the goal by normSq Q > 0
+  have key : Complex.normSq (pev C.Q (⟨-u, y⟩ : ℂ)) * (((10 ^ 12 : ℝ) ^ 2) * Complex.normSq y1) ≤
+      Complex.normSq (pev C.Q (⟨-u, y⟩ : ℂ)) * ((((10 ^ 12 : ℝ) + 1) ^ 2) * Complex.normSq y0) := by
+    calc Complex.normSq (pev C.Q (⟨-u, y⟩ : ℂ)) * (((10 ^ 12 : ℝ) ^ 2) * Complex.normSq y1)
+        = ((10 ^ 12 : ℝ) ^ 2) * (Complex.normSq (pev C.Q (⟨-u, y⟩ : ℂ)) * Complex.normSq y1) := by ring
+      _ = (((10 ^ 12 : ℝ) ^ 2) * Complex.normSq (pev C.P (⟨-u, y⟩ : ℂ))) * Complex.normSq y0 := by rw [hn]; ring
+      _ ≤ ((((10 ^ 12 : ℝ) + 1) ^ 2) * Complex.normSq (pev C.Q (⟨-u, y⟩ : ℂ))) * Complex.normSq y0 :=
+          mul_le_mul_of_nonneg_right hineq h0
+      _ = Complex.normSq (pev C.Q (⟨-u, y⟩ : ℂ)) * ((((10 ^ 12 : ℝ) + 1) ^ 2) * Complex.normSq y0) := by ring
+  exact le_of_mul_le_mul_left key hQpos
+
+/-- non-vacuity of the stage equations: backward Euler at `w = −1` (`hλ = −1`), `y₀ = 1`: `κ = −1/2`
+solves `(1 + 1)κ = −1`, and the step gives `y₁ = 1/2 = R(−1)` -/
+example : (∑ j ∈ Finset.range cert_BackwardEuler.A.length, pev (iMinusWA cert_BackwardEuler.A 0 j) (-1 : ℂ) * (fun _ => (-1/2 : ℂ)) j) =
+    (-1 : ℂ) * (2 : ℂ) ^ cert_BackwardEuler.K * 1 := by
+  have hA : cert_BackwardEuler.A = [[1]] := by decide +kernel
+  have hK : cert_BackwardEuler.K = 0 := by decide +kernel
+  rw [hA, hK]
+  simp [iMinusWA]
+  norm_num
 
 /-- non-vacuity: backward Euler, `R(z) = 1/(1 − z)` (here in `w = z/2^K` with `K = 0`) -/
 example : cert_BackwardEuler.Q = [1, -1] ∧ cert_BackwardEuler.P = [1, 0] ∧ cert_BackwardEuler.valid = true := by decide +kernel
